@@ -78,6 +78,13 @@ TARGETS = ["tridiag"] * 11 + ["root"] * 4 + ["root_inv"] * 3 + ["diag"] * 2
 BATCHES = [(), (), (), (), (2,), (2,), (3,), (1,), (2, 1), (1, 2), (1, 1)]
 
 _STATS = {}  # measured c.u.n statistics of regular members (evidence only)
+_RATIO = {}  # largest observed error / bound per sub-check and dtype (evidence only)
+
+
+def _rec(name, dtn, value, bound):
+    if bound > 0:
+        key = "%s/%s" % (name, dtn)
+        _RATIO[key] = max(_RATIO.get(key, 0.0), value / bound)
 
 
 # ------------------------------------------------------------------------------------------------
@@ -265,10 +272,22 @@ def _t_mixed(case):
 
 def _t_unit_batch(case):
     b = _batch_of(case)
-    return case["target"] != "tridiag" and len(b) >= 2 and b[0] == 1 and _ncols(case) == 1
+    # one start column: RootDecomposition / Diagonalization take a leading batch dim of size 1 for the probe dim;
+    # several columns: _postprocess_lanczos_root_inv_decomp squeezes dim 0 after selecting the best probe
+    return case["target"] != "tridiag" and len(b) >= 1 and b[0] == 1 and (len(b) >= 2 or _ncols(case) > 1)
+
+
+def _jitter(case):
+    j = case.get("jitter")
+    return 1e-6 if j is None else float(j)
+
+
+def _t_diag_jitter(case):
+    return case["target"] == "diag" and _jitter(case) != 0.0 and min(int(case["max_iter"]), case["spec"]["n"]) >= 2
 
 
 TRIGGERS = {
+    "diag_jitter_all_entries": _t_diag_jitter,
     "max_iter_1": _t_max_iter_1,
     "first_step_breakdown": _t_first_step,
     "mixed_breakdown_batch": _t_mixed,
@@ -327,7 +346,7 @@ def cases(draw, tier):
     target = draw(st.sampled_from(TARGETS))
     batches = BATCHES if n <= 16 else [(), (), (2,)]
     if target != "tridiag" and "leading_unit_batch_consumer" in open_:
-        batches = [b for b in batches if not (len(b) >= 2 and b[0] == 1)]
+        batches = [b for b in batches if not (len(b) >= 1 and b[0] == 1)] + [(1,)] * (target != "root_inv")
     batch = draw(st.sampled_from(batches))
     cnt = _prod(batch)
     kappas = list(spd.KAPPAS)
@@ -402,6 +421,11 @@ def cases(draw, tier):
         case["tv"] = _nest(tvs, list(batch)) if batch else tvs[0]
     else:
         case["tv"] = None
+    case["jitter"] = None
+    if target != "tridiag":
+        case["jitter"] = draw(st.sampled_from([None, None, None, 1e-3, 0.0]))
+        if target == "diag" and "diag_jitter_all_entries" in open_:
+            case["jitter"] = 0.0  # normalise the triggering feature away: with zero jitter both readings coincide
     # generator-side exclusion of open findings (DESIGN 1.6.4)
     if "mixed_breakdown_batch" in open_ and _t_mixed(case):
         case = _first_member(case)
@@ -498,6 +522,7 @@ def check_tridiag(Q, T, Aref, case, target, an, labels):
         vac = 4.0 * n * u * rho * rho > 0.5
         B = max(TOL_REORTH, 4.0 * n * u * rho)
         un = float((torch.diagonal(G[i]) - 1).abs().max())
+        _rec("unit_columns", dtn, un, 64.0 * n * u)
         if un > 64.0 * n * u:
             _fail("unit_columns", target, "value", "| |q|^2 - 1 | = %.3g > 64 n u = %.3g (member %d, k=%d)" % (un, 64.0 * n * u, i, k))
         info = {"B": B, "vac": vac, "post": post, "nrm": nrm, "k": k}
@@ -506,6 +531,7 @@ def check_tridiag(Q, T, Aref, case, target, an, labels):
             continue
         off = float((G[i] - eye).abs().max())
         info["orth"] = off
+        _rec("orthonormal", dtn, off, B)
         if off > B:
             _fail(
                 "orthonormal",
@@ -517,11 +543,13 @@ def check_tridiag(Q, T, Aref, case, target, an, labels):
         pe = float(P[i].abs().max())
         info["proj"] = pe
         tp = (4.0 * B + 64.0 * n * u) * nrm
+        _rec("projection", dtn, pe, tp)
         if pe > tp:
             _fail("projection", target, "value", "max |Q^T A Q - T| = %.3g > %.3g (member %d, n=%d k=%d dtype=%s)" % (pe, tp, i, n, k, dtn))
         if k > 1:
             re = float(Rs[i][:, :-1].abs().max())
             tr = (4.0 * math.sqrt(k) * B + 64.0 * n * u) * nrm
+            _rec("residual", dtn, re, tr)
             if re > tr:
                 _fail("residual", target, "value", "max |(A Q - Q T)[:, :-1]| = %.3g > %.3g (member %d, n=%d k=%d dtype=%s)" % (re, tr, i, n, k, dtn))
         early = (M == 1 and k < num_iter) or (expect_k is not None and not an["all_healthy"] and k == expect_k and k < num_iter)
@@ -530,11 +558,13 @@ def check_tridiag(Q, T, Aref, case, target, an, labels):
             we = float(W.abs().max())
             tw = 1e-6 + (6.0 * math.sqrt(k) * B + 64.0 * n * u) * nrm
             info["early"] = True
+            _rec("invariant", dtn, we, tw)
             if we > tw:
                 _fail("invariant", target, "value", "stopped at k=%d < %d but max |Q T Q^T V - A V| = %.3g > %.3g on V = span(Q) (member %d)" % (k, num_iter, we, tw, i))
         if k == n:
             fe = float((Qf[i] @ Tf[i] @ Qf[i].T - Af[i]).abs().max())
             tf = k * (10.0 * B + 64.0 * n * u) * nrm
+            _rec("invariant_full", dtn, fe, tf)
             if fe > tf:
                 _fail("invariant", target, "full", "k = n but max |Q T Q^T - A| = %.3g > %.3g (member %d)" % (fe, tf, i))
         st_ = _STATS.setdefault(dtn, {"orth_over_nu": 0.0, "proj_over_nu_nrm": 0.0})
@@ -575,6 +605,7 @@ def _compression(Gm, A, nrm, k, B, jit, n, u, dtn, target, what):
     exp = Pm @ (Pm.T @ A @ Pm) @ Pm.T
     d = float((Gm - exp).abs().max())
     t = (jit + thr + 4.0 * u / thr + 12.0 * k * B + 128.0 * k * n * u) * nrm
+    _rec("compression", dtn, d, t)
     if d > t:
         _fail("compression", target, "value", "%s: max |R R^T - P (P^T A P) P^T| = %.3g > %.3g with P a basis of span(R) (rank %d, n=%d k=%d dtype=%s)" % (what, d, t, int(keep.sum()), n, k, dtn))
 
@@ -589,7 +620,10 @@ def run_consumer(case, A_lib, Aref, V_lib, an, labels):
     u = U[dtn]
     batch = _batch_of(case)
     nb = _prod(batch)
-    jit_rel = 1e-6
+    jit_rel = _jitter(case)
+    cell = {"max_root_decomposition_size": int(case["max_iter"])}
+    if case.get("jitter") is not None:
+        cell["tridiagonal_jitter"] = float(case["jitter"])
     rec = []
     orig = LZ.lanczos_tridiag
 
@@ -603,7 +637,7 @@ def run_consumer(case, A_lib, Aref, V_lib, an, labels):
         tv = torch.tensor(case["tv"], dtype=F64).reshape(*batch, n, -1).to(DT[dtn])
     op = to_linear_operator(A_lib)
     try:
-        with state.apply_settings({"max_root_decomposition_size": int(case["max_iter"])}), mock.patch.object(LZ, "lanczos_tridiag", wrapper):
+        with state.apply_settings(cell), mock.patch.object(LZ, "lanczos_tridiag", wrapper):
             if target == "root":
                 res = op.root_decomposition(method="lanczos").root.to_dense()
             elif target == "root_inv":
@@ -686,6 +720,7 @@ def run_consumer(case, A_lib, Aref, V_lib, an, labels):
                 t = 64.0 * k**1.5 * u * kc / lam_min * rows
                 d = float((Gm - grams[i]).abs().max())
                 labels.append("inv:whitebox")
+                _rec("postprocess_inv", dtn, d, t)
                 if d > t:
                     _fail("postprocess", target, "value", "max |R R^T - Q (T + jI)^-1 Q^T| = %.3g > %.3g (cond T %.3g, k=%d, dtype=%s)" % (d, t, kc, k, dtn))
             else:
@@ -693,6 +728,7 @@ def run_consumer(case, A_lib, Aref, V_lib, an, labels):
         else:
             t = 64.0 * k**1.5 * u * nrm * rows
             d = float((Gm - grams[i]).abs().max())
+            _rec("postprocess", dtn, d, t)
             if d > t:
                 _fail("postprocess", target, "value", "max |result gram - Q (T + jI)_+ Q^T| = %.3g > %.3g (k=%d, dtype=%s)" % (d, t, k, dtn))
         if vac:
@@ -705,6 +741,7 @@ def run_consumer(case, A_lib, Aref, V_lib, an, labels):
                 d = float((Gm - Ab[b]).abs().max())
                 t = (jit_rel + 14.0 * k * B + 128.0 * k * n * u) * nrm
                 labels.append("full:reconstruction")
+                _rec("reconstruction", dtn, d, t)
                 if d > t:
                     _fail("reconstruction", target, "value", "Krylov space is the whole space but max |R R^T - A| = %.3g > %.3g (n=%d dtype=%s)" % (d, t, n, dtn))
             if target == "diag":
@@ -715,12 +752,14 @@ def run_consumer(case, A_lib, Aref, V_lib, an, labels):
                 Gv = Rf[b][:, nz].T @ Rf[b][:, nz]
                 t = k * B + 64.0 * k**1.5 * u
                 d = float((Gv - torch.eye(int(nz.sum()), dtype=F64)).abs().max()) if int(nz.sum()) else 0.0
+                _rec("ritz_orth", dtn, d, t)
                 if d > t:
                     _fail("ritz", target, "value", "max |V^T V - I| = %.3g > %.3g on the unmasked eigenvectors" % (d, t))
                 ray = ((Ab[b] @ Rf[b][:, nz]) * Rf[b][:, nz]).sum(-2)
                 jit = jit_rel * float(torch.diagonal(Tf[i]).min())
                 d = float((ray + jit - ev_l[nz]).abs().max()) if int(nz.sum()) else 0.0
                 t = (k * (4.0 * B + 64.0 * n * u) + 64.0 * k**1.5 * u + 3.0 * k * B) * nrm
+                _rec("ritz_value", dtn, d, t)
                 if d > t:
                     _fail("ritz", target, "value", "max |v^T A v + j - eigenvalue| = %.3g > %.3g" % (d, t))
         else:
@@ -732,12 +771,14 @@ def run_consumer(case, A_lib, Aref, V_lib, an, labels):
                 Mm = Rf[b].T @ Ab[b] @ Rf[b]
                 d = float((Mm - eyek).abs().max())
                 labels.append("inv:blackbox")
+                _rec("inv_compression", dtn, d, 2.0 * kap * e1)
                 if d > 2.0 * kap * e1:
                     _fail("compression", target, "value", "inverse root: max |R^T A R - I| = %.3g > %.3g (cond %.3g, k=%d, dtype=%s)" % (d, 2.0 * kap * e1, kap, k, dtn))
                 e2 = jit_rel + k * (10.0 * B + 64.0 * n * u) + 64.0 * k**1.5 * u
                 if full and 2.0 * kap * e2 <= 0.25:
                     d = float((Gm @ Ab[b] - torch.eye(n, dtype=F64)).abs().max())
                     labels.append("full:reconstruction")
+                    _rec("inv_reconstruction", dtn, d, 2.0 * kap * e2)
                     if d > 2.0 * kap * e2:
                         _fail("reconstruction", target, "value", "Krylov space is the whole space but max |R R^T A - I| = %.3g > %.3g (cond %.3g)" % (d, 2.0 * kap * e2, kap))
             else:
@@ -854,5 +895,6 @@ def coverage_extra():
             "tol_reorth": TOL_REORTH, "breakdown": BRK, "unit_columns": "64 n u", "orthonormal": "max(tol, 4 n u nrm/beta_min), claimed while 4 n u (nrm/beta_min)^2 <= 0.5",
             "projection": "(4B + 64 n u) nrm", "residual": "(4 sqrt(k) B + 64 n u) nrm", "postprocess": "64 k^1.5 u nrm",
         },
+        "max_error_over_bound": {k: float("%.4g" % v) for k, v in sorted(_RATIO.items())},
         "measured_regular_members": {k: {a: float("%.4g" % b) for a, b in v.items()} for k, v in _STATS.items()},
     }
